@@ -33,6 +33,7 @@ type VerifEvent struct {
 	Path      string            `json:"path,omitempty"`
 	Epoch     uint64            `json:"epoch"`
 	IDs       []string          `json:"ids,omitempty"`
+	IntroID   uint64            `json:"intro_id,omitempty"` // segmentIntroduction.id (also set when the batch has no documents)
 	NewSegID  uint64            `json:"new_seg,omitempty"`
 	NewDocIDs []string          `json:"new_docs,omitempty"`
 	Internal  map[string][]byte `json:"internal,omitempty"`
@@ -128,7 +129,7 @@ func verifIntroduceSegment(s *Scorch, next *segmentIntroduction, snap *IndexSnap
 	if !verifEnabled() {
 		return
 	}
-	ev := &VerifEvent{Kind: "introduce", Path: s.path, Epoch: snap.epoch, IDs: next.ids, Root: verifRoot(snap)}
+	ev := &VerifEvent{Kind: "introduce", Path: s.path, Epoch: snap.epoch, IDs: next.ids, IntroID: next.id, Root: verifRoot(snap)}
 	if next.data != nil {
 		ev.NewSegID = next.id
 		n := next.data.Count()
